@@ -74,8 +74,8 @@ class C07(core.Check):
             'non-trivial = at least one query has a non-empty answer')
     TRUSTED = ['stdlib html.parser tokenizer (documents enter the model as recorded handler calls)']
     ASSUMPTIONS = ['ids are unique, searched values are non-empty; queries are issued after a synchronising reindex / parse (the property\'s claim)']
-    PARTIAL = ['the model builds the maps of a freshly parsed document by indexing the final tree in document order (creation order = document order '
-               'is observed by the correspondence, not proved)']
+    PARTIAL = ['useIndex=False is modelled as the unindexed search; in the code its recursion re-enters the indexed override for nested levels, '
+               'which coincides whenever the index is in step (the only states the correspondence runs)']
 
     def generate(self):
         rng = self.rng
